@@ -35,6 +35,10 @@ Cat ==
     (* single axis (j only) 1x2 * 2x2 (row vector x matrix) *)
     << << <<<<0,0,2,0>>, <<0,0,-1,0>>>> >>,
        << <<<<0,0,1,0>>, <<0,0,3,0>>>>, <<<<0,0,-2,0>>, <<0,0,1,0>>>> >> >>,
+    (* entries whose imaginary components cancel (x + y + z = 0, also w + x + y + z = 0): plane sums vanish *)
+    << << <<<<0,1,-1,0>>, <<2,0,1,-1>>>>, <<<<-1,1,1,-2>>, <<0,2,-1,-1>>>> >>,
+       << <<<<3,1,-2,1>>, <<0,-1,0,1>>>>, <<<<1,0,1,-1>>, <<-2,1,1,0>>>> >> >>,
+    << << <<<<1,1,-1,-1>>>> >>, << <<<<0,2,-3,1>>>> >> >>,
     (* zero times dense *)
     << << <<QZero, QZero>>, <<QZero, QZero>> >>,
        << <<<<1,2,3,4>>, <<5,6,7,8>>>>, <<<<-1,-2,-3,-4>>, <<2,0,2,0>>>> >> >>,
